@@ -14,6 +14,21 @@ def kind? : List Sexp → Option Kind
   | [.atom "lazySelfSet", n] => n.nat?.map (fun v => .lazySelfSet v (v + 1))
   | _ => none
 
+def outc1? : Sexp → Option Outc
+  | .list [.atom "val", n] => n.nat?.map .val
+  | .list [.atom "err", n] => n.nat?.map .err
+  | _ => none
+
+/-- `good | raising | oneShot | unsub j | resub j | reenter (val v) | reenter (err e)`; `0` / `1` = the old spelling -/
+def beh? : List Sexp → Option Beh
+  | [.atom "good"] | [.atom "0"] => some .good
+  | [.atom "raising"] | [.atom "1"] => some .raising
+  | [.atom "oneShot"] => some .oneShot
+  | [.atom "unsub", n] => n.nat?.map .unsub
+  | [.atom "resub", n] => n.nat?.map .resub
+  | [.atom "reenter", o] => (outc1? o).map .reenter
+  | _ => none
+
 def op? : Sexp → Option Op
   | .list [.atom "value"] => some .value
   | .list [.atom "error"] => some .error
@@ -22,7 +37,8 @@ def op? : Sexp → Option Op
   | .list [.atom "setValue", n] => n.nat?.map .setValue
   | .list [.atom "setError", n] => n.nat?.map .setError
   | .list [.atom "reset"] => some .reset
-  | .list [.atom "subscribe", n, b] => do some (.subscribe (← n.nat?) (← b.bool?))
+  | .list (.atom "subscribe" :: n :: b) => do some (.subscribe (← n.nat?) (← beh? b))
+  | .list [.atom "unsubscribe", n] => n.nat?.map .unsubscribe
   | _ => none
 
 def outc? : Sexp → Option (Option Outc)
@@ -38,6 +54,7 @@ def res? : Sexp → Option Res
   | .list [.atom "raised", .atom "user", n] => n.nat?.map (fun e => .raised (.user e))
   | .list [.atom "raised", .atom "alreadyComputed"] => some (.raised .alreadyComputed)
   | .list [.atom "raised", .atom "notImplemented"] => some (.raised .notImplemented)
+  | .list [.atom "raised", .atom "notSubscribed"] => some (.raised .notSubscribed)
   | .list (.atom "raised" :: _) => some (.raised .other)
   | .list [.atom "bool", b] => b.bool?.map .bool
   | .list [.atom "unit"] => some .unit
@@ -45,6 +62,7 @@ def res? : Sexp → Option Res
 
 def cb? : Sexp → Option Cb
   | .list [n, o] => do some { sub := (← n.nat?), seen := (← outc? o) }
+  | .list [n, o, r] => do some { sub := (← n.nat?), seen := (← outc? o), inner := some (← res? r) }
   | _ => none
 
 def obs? : Sexp → Option Obs
@@ -73,5 +91,74 @@ def handle (id : Nat) (hdr : List Sexp) (body : List Sexp) : String :=
     let f (s : String) := if s == "ok" then "ok" else "fail:" ++ s
     s!"R {id} CORR={c} SPEC={f spec} SPECM={f specm} | {d}"
   | _, _ => s!"R {id} CORR=diff SPEC=ok SPECM=ok | unparsable case"
+
+/-! ### mode `futsubs`: notification rounds of futures that are NOT kinds of the one-future model (batch items, batches,
+  DebugBatchItem, AsyncTasks that block) - no theorem speaks about how these complete; each round is judged by the
+  same clause `notifiedAll` (the one `C10_spec_holds` / `C10_notify_once_after_visible` are about) plus the plain
+  statements "a second set raises FutureIsAlreadyComputed" and "value() / call report the outcome".
+
+  (fut) (sub id beh...)* (round outc (cbs) second-set-result read1 read2 expected-outc)*  per watched future  -/
+
+def subLine? : Sexp → Option Sub
+  | .list (.atom "sub" :: n :: b) => do some ((← n.nat?), (← beh? b))
+  | _ => none
+
+structure Round where
+  out : Option Outc
+  cbs : List Cb
+  again : Res
+  r1 : Res
+  r2 : Res
+  expected : Option Outc     -- the outcome the harness handed to the completion path
+
+def round? : Sexp → Option Round
+  | .list [.atom "round", o, .list cbs, a, r1, r2, e] => do
+    some { out := (← outc? o), cbs := (← cbs.mapM cb?), again := (← res? a), r1 := (← res? r1), r2 := (← res? r2),
+           expected := (← outc? e) }
+  | _ => none
+
+def judgeRounds (subs : List Sub) (i : Nat) : List Round → String
+  | [] => "ok"
+  | r :: rs =>
+    match r.out with
+    | none => s!"compute-completes@round{i}"
+    | some o =>
+      if r.expected != some o then s!"outcome@round{i}"
+      else if !notifiedAll subs r.cbs o then s!"notify-once@round{i}"
+      else if r.again != .raised .alreadyComputed then s!"failed-set-raises@round{i}"
+      else if r.r1 != readValue o || r.r2 != readValue o then s!"reads-stable@round{i}"
+      else judgeRounds (afterNotify subs) (i + 1) rs
+
+/-- the body is a sequence of groups `(fut) (sub ..)* (round ..)*`, one per watched future -/
+def groups : List Sexp → List (List Sexp)
+  | [] => []
+  | x :: xs =>
+    match groups xs with
+    | [] => if x == .list [.atom "fut"] then [[]] else [[x]]
+    | g :: gs => if x == .list [.atom "fut"] then [] :: g :: gs else (x :: g) :: gs
+
+/-- one watched future: (parsable, expected ids per round, notified ids per round, verdict) -/
+def judgeGroup (g : List Sexp) : Bool × List (List Nat) × List (List Nat) × String :=
+  let subs := g.filterMap subLine?
+  let rounds := g.filterMap round?
+  -- what the notification rule of the model produces for these rounds (outcomes taken from the observation)
+  let exp := (rounds.foldl (fun (acc : List Sub × List (List Nat)) _ =>
+    (afterNotify acc.1, acc.2 ++ [acc.1.map (·.1)])) (subs, [])).2
+  let got := rounds.map fun r => r.cbs.map (·.sub)
+  (subs.length + rounds.length == g.length && !rounds.isEmpty, exp, got, judgeRounds subs 0 rounds)
+
+def handleSubs (id : Nat) (_hdr : List Sexp) (body : List Sexp) : String :=
+  -- `groups` leaves an empty first group when the body starts with `(fut)`
+  let gs := ((groups body).filter (!·.isEmpty)).map judgeGroup
+  if gs.isEmpty || gs.any (fun g => !g.1) then s!"R {id} CORR=diff SPEC=ok SPECM=ok | unparsable futsubs case"
+  else
+    let exp := gs.map (·.2.1)
+    let got := gs.map (·.2.2.1)
+    let verdict := match (gs.zipIdx.filter (fun g => g.1.2.2.2 != "ok")).head? with
+      | none => "ok"
+      | some (g, i) => if gs.length == 1 then g.2.2.2 else s!"{g.2.2.2}-level{i}"
+    let c := if exp == got then "ok" else "diff"
+    let f (s : String) := if s == "ok" then "ok" else "fail:" ++ s
+    s!"R {id} CORR={c} SPEC={f verdict} SPECM=ok | notified per future and round: expected {exp}, got {got}"
 
 end AsynqModel.Drv.Futures
